@@ -765,7 +765,7 @@ func hasSemantics(c *harness.Ctx) {
 	dsu.Must(ls.StoreChunk(desync.NewChunk(b)))
 	var absent desync.ChunkID
 	rng.Read(absent[:])
-	kind := []string{"ssh", "s3", "sftp"}[rng.Intn(3)]
+	kind := []string{"ssh", "s3", "sftp", "web-server", "damaged-behind-chunk-server"}[rng.Intn(5)]
 	c.Info("has-semantics transport=%s", kind)
 	c.LogInfo()
 	check := func(what string, s desync.Store, wantPresent, wantAbsent string) bool {
@@ -795,6 +795,55 @@ func hasSemantics(c *harness.Ctx) {
 		return true
 	}
 	switch kind {
+	case "web-server":
+		// a plain web server publishing the store directory (Content-Length on HEAD answers, as nginx / Apache / Go's
+		// FileServer send it)
+		srv := httptest.NewServer(http.FileServer(http.Dir(store)))
+		defer srv.Close()
+		u, _ := url.Parse(srv.URL + "/")
+		s, err := desync.NewRemoteHTTPStore(u, desync.StoreOptions{ErrorRetry: 2, ErrorRetryBaseInterval: time.Millisecond})
+		dsu.Must(err)
+		if !check("HTTP store on a plain web server", s, "true", "false") {
+			return
+		}
+		if ch, err := s.GetChunk(id); err != nil {
+			c.Violation("present-not-delivered:web-server", "GetChunk from a plain web server: %v", err)
+			return
+		} else if d, _ := ch.Data(); !bytes.Equal(d, b) {
+			c.Violation("data-changed:web-server", "GetChunk from a plain web server returned other bytes")
+			return
+		}
+	case "damaged-behind-chunk-server":
+		// a chunk server that verifies what it reads, in front of a store holding a damaged chunk: a failure, not "missing"
+		other, _ := desync.Compress([]byte("bit rot"))
+		os.WriteFile(filepath.Join(store, id.String()[:4], id.String()+".cacnk"), other, 0644)
+		addr, cmd, err := dsu.StartServerCmd(func(addr string) *exec.Cmd {
+			cmd := exec.Command(cli, "chunk-server", "-s", store, "-l", addr, "--skip-verify-read=false")
+			cmd.Env = append(os.Environ(), "HOME="+dir)
+			return cmd
+		})
+		if err != nil {
+			c.Skip("chunk-server: %v", err)
+			return
+		}
+		defer dsu.StopServerCmd(cmd)
+		resp, err := http.Get("http://" + addr + "/" + id.String()[:4] + "/" + id.String() + ".cacnk")
+		if err == nil {
+			resp.Body.Close()
+			if resp.StatusCode == 404 || resp.StatusCode == 200 {
+				c.Violation("failure-reported-as-missing:chunk-server", "verifying chunk-server in front of a store with a damaged chunk answered GET with %d", resp.StatusCode)
+				return
+			}
+		}
+		u, _ := url.Parse("http://" + addr + "/")
+		s, _ := desync.NewRemoteHTTPStore(u, desync.StoreOptions{ErrorRetry: 0})
+		if _, gerr := s.GetChunk(id); gerr == nil {
+			c.Violation("failure-reported-as-success:chunk-server", "a damaged chunk was delivered through a verifying chunk-server and a verifying client")
+			return
+		} else if _, missing := gerr.(desync.ChunkMissing); missing {
+			c.Violation("failure-reported-as-missing:chunk-server", "client of a verifying chunk-server in front of a damaged chunk was told: %v", gerr)
+			return
+		}
 	case "ssh":
 		s, err := sshStore(store, 1)
 		if err != nil {
